@@ -2,7 +2,9 @@ package main
 
 import (
 	"fmt"
+	"go/token"
 	"go/types"
+	"golang.org/x/tools/go/ssa"
 	"strings"
 )
 
@@ -419,7 +421,7 @@ func (e *Engine) specCall(env *SpecEnv, x *SExpr) Value {
 		// ground terms of the query (triggers of the membership axioms)
 		mk := e.ctx.Func("smark:"+a.Sort.String(), []*Sort{a.Sort}, SBool)
 		sv := T("s!sm", a.Sort)
-		e.ctx.Axiom("smark:"+a.Sort.String(), []string{"smark:" + a.Sort.String()}, ForallPat([]Term{sv}, [][]Term{{T("(" + mk + " s!sm)", SBool)}}, T("("+mk+" s!sm)", SBool)))
+		e.ctx.Axiom("smark:"+a.Sort.String(), []string{"smark:" + a.Sort.String()}, ForallPat([]Term{sv}, [][]Term{{T("("+mk+" s!sm)", SBool)}}, T("("+mk+" s!sm)", SBool)))
 		return And(T("("+mk+" "+a.S+")", SBool), T("("+mk+" "+b.S+")", SBool),
 			ForallPat([]Term{x}, [][]Term{{Select(a, x)}, {Select(b, x)}}, Iff(Select(a, x), Select(b, x))))
 	case "intset":
@@ -520,6 +522,44 @@ func (e *Engine) specCall(env *SpecEnv, x *SExpr) Value {
 			return v
 		}
 		sfail("str of unsupported value")
+	case "ranged":
+		// ranged(): the slice that the current loop ranges over (an unnamed temporary
+		// such as a call result); ranged(n) for loop n
+		if e.cur == nil {
+			sfail("ranged outside of a function under verification")
+		}
+		ln := -1
+		if len(args) == 1 {
+			n, ok := isIntLit(e.evalSpecTerm(env, args[0]))
+			if !ok {
+				sfail("ranged(n) needs a literal loop ordinal")
+			}
+			ln = int(n)
+		} else if lv, ok := env.vars["$loop"]; ok {
+			n, _ := isIntLit(lv.(Term))
+			ln = int(n)
+		}
+		for _, li := range e.cur.loops {
+			if li.ordinal != ln {
+				continue
+			}
+			for _, ins := range li.head.Instrs {
+				bo, ok := ins.(*ssa.BinOp)
+				if !ok || bo.Op != token.LSS {
+					continue
+				}
+				c, ok := bo.Y.(*ssa.Call)
+				if !ok {
+					continue
+				}
+				if b, ok := c.Call.Value.(*ssa.Builtin); ok && b.Name() == "len" && len(c.Call.Args) == 1 {
+					if v, ok := env.st.env[c.Call.Args[0]]; ok {
+						return wrapTyped(v, c.Call.Args[0].Type())
+					}
+				}
+			}
+		}
+		sfail("ranged: loop %d does not range over a slice value", ln)
 	case "acq":
 		// acq(e): e evaluated in the state right after the most recent lock
 		// acquisition of this function (the snapshot the lock guarantees refer to)
